@@ -565,7 +565,7 @@ func c10CloseFromHook(w *W) {
 	kind := allKinds[w.Choose(simrt.SShape, len(allKinds))]
 	tran := w.simFallback([]string{"inproc", "sim", "tcp", "ipc", "tls+tcp", "ws", "wss"}[w.Choose(simrt.SShape, 7)])
 	on := []mangos.PipeEvent{mangos.PipeEventAttaching, mangos.PipeEventAttached}[w.Choose(simrt.SShape, 2)]
-	what := []string{"endpoint", "socket", "pipe-then-endpoint"}[w.Choose(simrt.SShape, 3)]
+	what := []string{"endpoint", "socket", "pipe-then-endpoint", "pipe"}[w.Choose(simrt.SShape, 4)]
 	side := []string{"listen", "dial"}[w.Choose(simrt.SShape, 2)]
 	w.SetShape("kind", kind)
 	w.SetShape("tran", tran)
@@ -589,6 +589,10 @@ func c10CloseFromHook(w *W) {
 		switch what {
 		case "socket":
 			hookErr = s.Close()
+		case "pipe":
+			// (turning a peer away: only this connection goes; the endpoint
+			// carries on)
+			hookErr = p.Close()
 		default:
 			if what == "pipe-then-endpoint" {
 				_ = p.Close()
@@ -660,6 +664,9 @@ func init() {
 	register(&Scenario{Name: "close-from-hook", Prop: "C10", Horizon: time.Hour, Weight: 40, Run: c10CloseFromHook})
 	register(&Scenario{Name: "close-from-hook-keeps-working", Prop: "C12", Horizon: time.Hour, Weight: 1, Run: c10CloseFromHook})
 	register(&Scenario{Name: "close-from-hook-lifecycle", Prop: "C13", Horizon: time.Hour, Weight: 1, Run: c10CloseFromHook})
+	// C11: the hook runs on a goroutine of the library (accept loop, dialer);
+	// a call made from it is one more concurrent caller and must return
+	register(&Scenario{Name: "calls-from-the-event-hook", Prop: "C11", Horizon: time.Hour, Weight: 6, Run: c10CloseFromHook})
 }
 
 // c10DialSilentPeer: the dedicated cell for a dial that is still in flight
